@@ -1,6 +1,7 @@
 import Drv.Basic
 import Drv.PureExec
 import Codec
+import Algo
 /-! The model side of the line protocol: one operation per line, one observation per line. -/
 namespace Drv
 open Sodg
@@ -63,6 +64,12 @@ def parseCoreOp : List String → Option Op
 def showEntry (g : G) (v : Nat) : String :=
   toString v ++ (if pers g v = .empty then "" else "!") ++ showEdges (edg g v)
 
+/-- one-token encoding of a text: `%`, blank, newline, tab and CR are percent-escaped -/
+def esc (t : String) : String :=
+  String.join (t.toList.map (fun c =>
+    if c = '%' then "%25" else if c = ' ' then "%20" else if c = '\n' then "%0A" else if c = '\t' then "%09"
+    else if c = '\r' then "%0D" else c.toString))
+
 def showObserve (g : G) : String :=
   "ok " ++ " ".intercalate ((keys g).map (showEntry g))
 
@@ -92,7 +99,7 @@ def coreCall (g : G) (op : Op) : HS × String :=
     | none => (.dead, "panic")
     | some (g', o) => (.live g', showOut o ++ " ; " ++ showPost g' op)
 
-def execLine (w : World) (line : String) : World × String :=
+def execLine2 (w : World) (line : String) : World × String :=
   match words line with
   | [] => (w, "")
   | ["reset"] => ({ w with hs := #[] }, "ok")
@@ -168,5 +175,30 @@ def execLine (w : World) (line : String) : World × String :=
           (w.set a s, out)
         | none => (w, "bad-op")
   | _ => (w, "bad-op")
+
+/-- the render calls, then everything else -/
+def execLine (w : World) (line : String) : World × String :=
+  match words line with
+  | [cmd, h] =>
+    if cmd = "xml" ∨ cmd = "dot" ∨ cmd = "debug" ∨ cmd = "display" then
+      match (parseHandle h).bind w.get with
+      | some (.live g) =>
+        (w, "ok " ++ esc (if cmd = "xml" then Rs.toXml g else if cmd = "dot" then Rs.toDot g else Rs.toDebug g))
+      | some .dead => (w, "dead")
+      | some .unmodelled => (w, "unmodelled")
+      | none => (w, "bad-op")
+    else execLine2 w line
+  | [cmd, h, v] =>
+    if cmd = "inspect" ∨ cmd = "vprint" then
+      match (parseHandle h).bind w.get, v.toNat? with
+      | some (.live g), some v =>
+        match (if cmd = "inspect" then Rs.toInspect g v else Rs.vPrint g v) with
+        | some t => (w, "ok " ++ esc t)
+        | none => (w, "panic")
+      | some .dead, _ => (w, "dead")
+      | some .unmodelled, _ => (w, "unmodelled")
+      | _, _ => (w, "bad-op")
+    else execLine2 w line
+  | _ => execLine2 w line
 
 end Drv
